@@ -1,4 +1,4 @@
-(* Proofs/C21.v — lemmas for the native HTTP client model. *)
+(* Proofs/C21.v — lemmas for the native HTTP client smodel. *)
 From VR Require Import Model.C21.
 From Coq Require Import Lia ZifyBool ZifyN ZifyNat.
 Import ListNotations.
@@ -1037,9 +1037,9 @@ Proof.
   unfold model_gen. destruct (open_op fx i world0) as [[w oc] r0]. exists w, oc, r0. auto.
 Qed.
 
-Lemma typed_model i : typed_ok (model i) = true.
+Lemma typed_model i : typed_ok (smodel i) = true.
 Proof.
-  destruct (model_shape true i) as (w & oc & r0 & Ho & Hm). unfold model, typed_ok. rewrite Hm. cbn [forallb].
+  destruct (model_shape true i) as (w & oc & r0 & Ho & Hm). unfold smodel, typed_ok. rewrite Hm. cbn [forallb].
   rewrite (typed_open _ _ _ _ Ho). destruct oc; [apply typed_run|reflexivity].
 Qed.
 
@@ -1067,15 +1067,15 @@ Proof.
   rewrite (open_pend _ _ _ _ _ Ho Hn0). now apply prod_run.
 Qed.
 
-Lemma model_meets_spec i : spec_ok i (model i) = true.
+Lemma model_meets_spec i : sspec_ok i (smodel i) = true.
 Proof.
   pose proof (typed_model i) as Hty. pose proof (poison_model true i) as Hpo.
   pose proof (exch_model true i) as Hex. pose proof (prod_model true i) as Hpr.
   pose proof (cursor_never_replayed_l true i) as Hnd.
-  destruct (model_shape true i) as (w & oc & r0 & Ho & Hm). unfold model in *. rewrite Hm in *.
+  destruct (model_shape true i) as (w & oc & r0 & Ho & Hm). unfold smodel in *. rewrite Hm in *.
   set (rs := match oc with Some c => run_ops true i w c (i_ops i) | None => [] end) in *.
   pose proof (reject_model true i) as Hrj. unfold model_gen in Hrj. rewrite Ho in Hrj. fold rs in Hrj.
-  unfold spec_ok. rewrite Hty, Hrj. cbn [tl] in Hpo, Hex.
+  unfold sspec_ok. rewrite Hty, Hrj. cbn [tl] in Hpo, Hex.
   destruct (open_facts _ _ _ _ _ Ho) as ((pr & Hpr0 & Hi & Hc) & Hoc).
   assert (Hwf : posts_wf (r0 :: rs) = true).
   { unfold posts_wf. rewrite Hpr0, Hi, Hc. cbn [negb is_some andb]. subst rs. destruct oc; [apply wf_run|reflexivity]. }
@@ -1109,7 +1109,7 @@ Proof.
 Qed.
 
 Lemma exception_typed_rel i r p ty :
-  In r (model i) -> In p (o_posts r) -> seen p = true -> first_exc (p_frames p) = Some ty ->
+  In r (smodel i) -> In p (o_posts r) -> seen p = true -> first_exc (p_frames p) = Some ty ->
   o_res r = RErr (ERpc ty).
 Proof.
   intros Hr Hp Hs He. pose proof (typed_model i) as Hty. unfold typed_ok in Hty.
@@ -1146,11 +1146,11 @@ Proof.
 Qed.
 
 Lemma exchange_returns_rel i k x bad r p it :
-  nth_error (i_ops i) k = Some (OpExchange x bad) -> nth_error (tl (model i)) k = Some r ->
+  nth_error (i_ops i) k = Some (OpExchange x bad) -> nth_error (tl (smodel i)) k = Some r ->
   o_posts r = [p] -> good p = true -> items_of true (p_frames p) = [it] -> has_token (p_frames p) = true ->
   o_res r = ROk it /\ o_logs r = logs_in (p_frames p) /\ p_x p = x /\ p_cancel p = false.
 Proof.
-  pose proof (exch_model true i) as H. unfold model. revert H. generalize (tl (model_gen true i)). generalize (i_ops i).
+  pose proof (exch_model true i) as H. unfold smodel. revert H. generalize (tl (model_gen true i)). generalize (i_ops i).
   induction k as [|k IH]; intros [|op ops] [|r1 rs] H Ho Hr Hp Hg Hit Htk; cbn [nth_error] in Ho, Hr; try discriminate.
   - inversion Ho; inversion Hr; subst. cbn [exch_ok] in H. apply andb_true_iff in H as [H _].
     unfold exch_one in H. rewrite Hp, Hg, Hit, Htk in H.
@@ -1160,9 +1160,9 @@ Proof.
   - cbn [exch_ok] in H. apply andb_true_iff in H as [_ H]. eapply IH; eauto.
 Qed.
 
-Definition returned (o : obs) : list item :=
+Definition returned (o : sobs) : list item :=
   flat_map (fun r => match o_res r with ROk it => [it] | _ => [] end) o.
-Definition all_delivered (o : obs) : list item := flat_map (fun r => flat_map delivered (o_posts r)) o.
+Definition all_delivered (o : sobs) : list item := flat_map (fun r => flat_map delivered (o_posts r)) o.
 
 Lemma no_ok_returned rs : forallb (fun r => negb (is_ok (o_res r))) rs = true -> returned rs = [].
 Proof.
@@ -1191,10 +1191,10 @@ Proof.
 Qed.
 
 Lemma producer_prefix_rel i :
-  i_exchange i = false -> no_lossy (model i) = true ->
-  exists rest, all_delivered (model i) = returned (model i) ++ rest.
+  i_exchange i = false -> no_lossy (smodel i) = true ->
+  exists rest, all_delivered (smodel i) = returned (smodel i) ++ rest.
 Proof.
-  intros Hex Hnl. pose proof (prod_model true i Hex Hnl) as H. unfold model in *.
+  intros Hex Hnl. pose proof (prod_model true i Hex Hnl) as H. unfold smodel in *.
   destruct (model_shape true i) as (w & oc & r0 & Ho & Hm). rewrite Hm in *.
   destruct (prod_prefix _ _ _ H) as [rest Hr]. exists rest.
   unfold all_delivered, returned in *. cbn [flat_map]. rewrite Hr.
@@ -1204,7 +1204,7 @@ Proof.
 Qed.
 
 Lemma reject_rel i r p :
-  In r (model i) -> In p (o_posts r) -> transparent (p_fault p) = false ->
+  In r (smodel i) -> In p (o_posts r) -> transparent (p_fault p) = false ->
   (lossy (p_fault p) = false \/ (i_exchange i = true /\ p_cancel p = false)) ->
   is_err (o_res r) = true.
 Proof.
@@ -1219,31 +1219,51 @@ Qed.
 Definition w_turn (v : Z) : turn := {| t_logs := []; t_act := AEmit; t_val := v; t_meta := [] |}.
 
 (* earlier client: an init handler error is masked by a schema-mismatch TypeError *)
-Definition w_init_raise : input :=
+Definition w_init_raise : sinput :=
   {| i_exchange := true; i_init_logs := []; i_init := InitRaise (str "ValueError"); i_turns := [];
      i_limit := 0; i_ops := [OpExchange 1%Z false]; i_faults := [] |}.
 
 Lemma legacy_refuted_l :
-  spec_ok w_init_raise (model_legacy w_init_raise) = false /\
-  map o_res (model_legacy w_init_raise) = [RErr (ERpc type_error)] /\
-  map o_res (model w_init_raise) = [RErr (ERpc (str "ValueError"))].
+  sspec_ok w_init_raise (smodel_legacy w_init_raise) = false /\
+  map o_res (smodel_legacy w_init_raise) = [RErr (ERpc type_error)] /\
+  map o_res (smodel w_init_raise) = [RErr (ERpc (str "ValueError"))].
 Proof. vm_compute. auto. Qed.
 
 (* scope: a producer continuation is retried with the same cursor after a failure *)
-Definition w_prod_retry : input :=
+Definition w_prod_retry : sinput :=
   {| i_exchange := false; i_init_logs := []; i_init := InitOk; i_turns := [w_turn 1; w_turn 2; w_turn 3];
      i_limit := 1; i_ops := [OpNext; OpNext; OpNext];
      i_faults := [no_fault; {| f_net := NetAfter; f_status := 0%Z; f_over := false; f_enc := EncKeep;
                                 f_body := BKeep; f_errhdr := false |}] |}.
 
-Lemma producer_retries_l : ~ NoDup (posted_cursors (model w_prod_retry)).
+Lemma producer_retries_l : ~ NoDup (posted_cursors (smodel w_prod_retry)).
 Proof. intro H. apply nodupb_NoDup in H. vm_compute in H. discriminate. Qed.
 
 (* non-vacuity witness: an exchange stream whose second turn is cut short *)
-Definition w_exch_fault : input :=
+Definition w_exch_fault : sinput :=
   {| i_exchange := true; i_init_logs := [7%N]; i_init := InitOk;
      i_turns := [{| t_logs := [1%N]; t_act := AEmit; t_val := 10%Z; t_meta := [(str "k", str "v")] |}; w_turn 20; w_turn 30];
      i_limit := 0; i_ops := [OpExchange 1%Z false; OpExchange 2%Z false; OpExchange 3%Z false; OpCancel];
      i_faults := [no_fault; no_fault; {| f_net := NetOk; f_status := 0%Z; f_over := false; f_enc := EncKeep;
                                           f_body := BTrunc; f_errhdr := false |}] |}.
 
+
+(* -------------------------------------------------------- client histories *)
+Lemma hist_model_meets_spec i : spec_ok i (model i) = true.
+Proof.
+  unfold spec_ok, model. cbn [fst snd]. rewrite model_meets_spec, map_length, Nat.eqb_refl.
+  induction (i_hist i) as [|h hs IH]; cbn; auto.
+Qed.
+
+Lemma hist_independent h1 h2 s :
+  snd (model {| i_hist := h1; i_in := s |}) = snd (model {| i_hist := h2; i_in := s |}).
+Proof. reflexivity. Qed.
+
+Lemma hist_drift_rejected h s r p :
+  In r (snd (model {| i_hist := h; i_in := s |})) -> In p (o_posts r) ->
+  f_body (p_fault p) = BDrift -> f_net (p_fault p) = NetOk -> is_err (o_res r) = true.
+Proof.
+  intros Hr Hp Hb Hn. cbn [model snd i_in] in Hr. eapply reject_rel; eauto.
+  - unfold transparent. rewrite Hb. cbn. now rewrite !andb_false_r.
+  - left. unfold lossy. now rewrite Hb.
+Qed.
